@@ -64,6 +64,10 @@ def units(tier, seed):
     nb = 16
     for b in range(nb):
         out.append({"kind": "fmarks", "ids": [x[0] for x in sel[b::nb]], "size": 4, "name": f"fmarks#{b}/{nb}"})
+    sel2 = fam[(seed % (step * 2))::(step * 2)]
+    for b in range(nb):
+        out.append({"kind": "fmarks", "ids": [x[0] for x in sel2[b::nb]], "size": 5, "family": "fmarks_c",
+                    "name": f"fmarks_c#{b}/{nb}"})
     return out
 
 
@@ -442,7 +446,7 @@ def run_unit(u):
         nd = 0
         for sid in u["ids"]:
             c = adapters.Ctx(sid, fam[sid])
-            sc = scopes.scope(c.model, "fmarks", sid, u["size"])
+            sc = scopes.scope(c.model, u.get("family", "fmarks"), sid, u["size"])
             docs = gen_docs.gen_docs(c.model, sc)
             for d in docs:
                 nd += 1
